@@ -38,6 +38,12 @@ def cases(seed, tier, shard, nshards):
             case = MC.random_cut_case(rng, rng.choice([10, 14, 18]), mol_kw=dict(p_arom=0.95, p_fused=0.8), implicit_biaryl=0.5)
             if case is not None:
                 case['features'] = sorted(set(case['features']) | {'fused_aromatic_rings'})
+        elif rng.random() < 0.06:
+            # pyrrole / imidazole type rings written in lower case with their [nH] (the spelling most SMILES tools emit); the
+            # ring stays in one fragment, cuts may end on its atoms
+            case = MC.random_cut_case(rng, rng.choice([8, 12]), allow_lower5=True, mode='het5_lower_kept')
+            if case is not None and 'lower_case_kekule_ring' not in case['features']:
+                case = None
         else:
             case = MC.random_cut_case(rng, rng.choice(cfg['max_heavy']), implicit_biaryl=0.5)
         if case is not None:
